@@ -10,7 +10,10 @@ import (
 	"sync/atomic"
 	"time"
 
+	"github.com/SAP/go-dblib/asetypes"
+
 	"verif/harness/refdata"
+	"verif/harness/rt"
 )
 
 // C04 — field values survive encoding and decoding unchanged.
@@ -27,6 +30,7 @@ func init() { register("C04", runC04) }
 
 type c04Judge struct {
 	replayPrev *dtVal // replay of a two-rows case: the first row's value
+	replayPrevVr *dtVariant // replay of a two-columns case: the first column's variant
 	c   *Ctx
 	agg *dtAgg
 }
@@ -208,8 +212,70 @@ func (j *c04Judge) visit(acc *dtAcc, vr *dtVariant, v *dtVal, pk bool) {
 	}
 	cp := *v
 	acc.prev[vr.label()] = &cp
+	if j.replayPrevVr != nil {
+		j.twoCols(acc, j.replayPrevVr, j.replayPrev, vr, v, reg)
+		return
+	}
 	if prev != nil {
 		j.twoRows(acc, vr, prev, v, maxLen, pmode, rtol, reg)
+	}
+	// ---- leg 5: one row with two columns (the previous value of whatever
+	// variant, then this one); both are read after the row was decoded
+	if acc.lastAny != nil && acc.nth%8 == 4 {
+		j.twoCols(acc, acc.lastAnyVr, acc.lastAny, vr, v, reg)
+	}
+	cp2 := *v
+	acc.lastAny, acc.lastAnyVr = &cp2, vr
+}
+
+func (j *c04Judge) colMax(vr *dtVariant) int {
+	if vr.Len > 0 {
+		return vr.Len
+	}
+	if vr.Class == refdata.ClassLen1 {
+		return 255
+	}
+	return 2147483647
+}
+
+func (j *c04Judge) twoCols(acc *dtAcc, vr1 *dtVariant, v1 *dtVal, vr2 *dtVariant, v2 *dtVal, reg string) {
+	if vr1.Class == refdata.ClassTextPtr || vr2.Class == refdata.ClassTextPtr {
+		return
+	}
+	m1, m2 := j.colMax(vr1), j.colMax(vr2)
+	if (vr1.K == dkBytes || vr1.K == dkStr) && len(v1.B) > m1 || (vr2.K == dkBytes || vr2.K == dkStr) && len(v2.B) > m2 {
+		return
+	}
+	re1, e1 := dtRefEncode(vr1, v1)
+	re2, e2 := dtRefEncode(vr2, v2)
+	if e1 != nil || e2 != nil {
+		return
+	}
+	f1, f2 := dtRefField(vr1, v1, m1), dtRefField(vr2, v2, m2)
+	acc.evals++
+	acc.counts["two_columns/"+vr1.Name+"+"+vr2.Name]++
+	g1, g2, stage, err, pi := dtPkgTwoCols(f1, f2, re1.bs, re2.bs)
+	cs := dtCase{Type: vr2.label(), Dir: "two-columns", V: *v2, Prev: v1, PrevType: vr1.label(), Wire: hex.EncodeToString(re1.bs) + "|" + hex.EncodeToString(re2.bs)}
+	mode := func(vr *dtVariant) dtCmpMode {
+		if vr.Role == "time" || vr.Role == "bigtime" {
+			return dtCmpTickTOD
+		}
+		return dtCmpExact // decimals: precision and scale travel in the format
+	}
+	switch {
+	case stage == "harness":
+		return
+	case pi != nil:
+		j.agg.add("panic|"+pi.Frame, vr2, "", fmt.Sprintf("ROW with two columns (%s %s, %s %s) panicked in %s: %s", vr1.label(), dtDescribe(v1), vr2.label(), dtDescribe(v2), stage, pi.Value), cs)
+	case err != nil:
+		j.agg.add("two-columns", vr2, reg, fmt.Sprintf("ROW with the columns %s (%s) and %s (%s): stage %s failed: %v", vr1.label(), dtDescribe(v1), vr2.label(), dtDescribe(v2), stage, err), cs)
+	default:
+		w1, w2 := dtGridBelow(vr1, v1, re1.canonical), dtGridBelow(vr2, v2, re2.canonical)
+		if ok, why := dtSameValue(vr2, &w2, g2, mode(vr2), dtTol3Of(vr2)); !ok {
+			j.agg.add("two-columns|second", vr2, reg, fmt.Sprintf("second column %s of a row (%s, after a %s column holding %s) decoded as: %s", vr2.label(), dtDescribe(&w2), vr1.label(), dtDescribe(&w1), why), cs)
+		} else if ok, why := dtSameValue(vr1, &w1, g1, mode(vr1), dtTol3Of(vr1)); !ok {
+			j.agg.add("two-columns|first", vr2, reg, fmt.Sprintf("first column %s of a row (%s, followed by a %s column holding %s) reads after the row was decoded: %s", vr1.label(), dtDescribe(&w1), vr2.label(), dtDescribe(&w2), why), cs)
+		}
 	}
 }
 
@@ -333,6 +399,20 @@ func (j *c04Judge) null(acc *dtAcc, vr *dtVariant, v *dtVal) {
 			case re.err != nil || len(re.bs) != 0:
 				j.viol("null", vr, v, "re-encode", fmt.Sprintf("Bytes(the NULL value GoValue returned, %T) = %s, %v; want zero length", dec.val, dtHex(re.bs), re.err), "null", re.bs)
 			}
+			// the value belongs to the consumer: it gives the decimal it
+			// received a number; NULLs decoded afterwards are NULL all the same
+			if d, ok := dec.val.(*asetypes.Decimal); ok && d != nil {
+				if rt.Catch(func() { d.Precision, d.Scale = 9, 3; d.SetString("12.345") }) == nil {
+					acc.evals++
+					acc.counts["null_decoded_after_the_consumer_wrote_on_an_earlier_null"]++
+					again := dtLibGoValue(vr, []byte{})
+					if again.panic == nil && again.err == nil {
+						if ok, why := dtSameValue(vr, v, again.val, dtCmpExact, 0); !ok {
+							j.viol("null", vr, v, "decode-after-consumer-wrote-on-earlier-null", "the consumer set the NULL decimal it had received to 12.345; GoValue(zero bytes) afterwards: "+why, "null", nil)
+						}
+					}
+				}
+			}
 		}
 	}
 	f := dtRefField(vr, v, vr.Len)
@@ -441,6 +521,9 @@ func runC04(c *Ctx) {
 		}
 		acc := newDtAcc(r)
 		j.replayPrev = cs.Prev
+		if cs.PrevType != "" {
+			j.replayPrevVr = dtFind(cs.PrevType)
+		}
 		j.visit(acc, vr, &cs.V, true)
 		acc.flush()
 		j.agg.flush(r, true)
